@@ -3,6 +3,8 @@
 
 package gldap
 
+import "math"
+
 type controlOptions struct {
 	withGrace        int
 	withExpire       int
@@ -53,6 +55,11 @@ func WithSecondsBeforeExpiration(seconds uint) Option {
 func WithErrorCode(code uint) Option {
 	return func(o interface{}) {
 		if o, ok := o.(*controlOptions); ok {
+			if code > math.MaxInt8 {
+				// keep out-of-range codes positive, so they are rejected
+				// instead of wrapping to a negative (or "unset") value
+				code = math.MaxInt8
+			}
 			o.withErrorCode = int(code)
 		}
 	}
